@@ -166,7 +166,8 @@ impl<'a> Parser<'a> {
                 }
             }
             if self.at(TokenKind::Eof) {
-                break;
+                // Let the Eof arm above decide: it is an error inside a loop/while block
+                continue;
             } else if self.at(TokenKind::Eol) {
                 self.skip();
             } else {
